@@ -14,10 +14,14 @@ THEOREMS = [
     "Mesa.Legacy.C09_hex_spec",
     "Mesa.Legacy.C09_hex_cells_in_grid",
     "Mesa.Legacy.C09_hex_tables_are_hexagonal",
+    "Mesa.Legacy.C09_hex_get_neighbors_exact",
     "Mesa.Legacy.C09_neighbors_spec",
     "Mesa.Legacy.C09_get_neighbors_exact",
     "Mesa.Legacy.C09_network_spec",
     "Mesa.Legacy.C09_network_all_simple_graphs",
+    "Mesa.Legacy.C09_cell_list_contents_any_integers",
+    "Mesa.Legacy.C09_network_contents_spec",
+    "Mesa.Legacy.C09_network_neighbors_exact",
 ]
 COUNTS = {"quick": 1200, "thorough": 80000}
 TRUSTED = [
@@ -28,15 +32,17 @@ TRUSTED = [
     "numpy fancy indexing in get_neighborhood_mask (modelled: mask[c] = c in neighbourhood)",
     "the hex offset tables are regenerated from mesa/space.py on every run (Gen/LegacyTables.lean) and the table theorems re-checked",
 ]
-ASSUMPTIONS = ["hexagonal tori have an even width (the property's quantifier); the centre passed to a hex query is a cell of the grid",
+ASSUMPTIONS = ["hexagonal tori have an even width (the property's quantifier); hex centres outside the grid are modelled and tied but not judged by the oracle",
                "NetworkGrid graphs are simple undirected graphs on nodes 0..n-1"]
 RULE = ("(a) exhaustive small scope, run first on every check: every (centre, radius, moore, include_center) on every SingleGrid up to "
         "4x4 (thorough 6x6), radii {1,2,3,7}, torus on/off, and every (centre, radius, include_center) on every HexMultiGrid of that size "
         "(tori: even width), radii {1,2,3,5}; each grid is queried forward and then in a strided reverse order, so the second pass is "
-        "answered from the cache; (b) random scenarios: the four grid classes at sizes 1..7 with random placements, 8-30 queries from "
+        "answered from the cache; every simple graph on up to 4 (thorough 5) labelled nodes in two edge-insertion orders x every node x "
+        "include_center x radius 0..n for NetworkGrid; (b) random scenarios: the four grid classes at sizes 1..7 with random placements, 8-30 queries from "
         "{get_neighborhood, iter_neighborhood, get_neighbors, iter_neighbors, get_neighborhood_mask, get_cell_list_contents (list and bare "
         "tuple), iter_cell_list_contents} with repeated keys (30%), out-of-grid centres, radii up to beyond the grid size, moves between "
-        "queries; (c) NetworkGrid on random simple graphs with 1..8 nodes, radii 0..n+1. "
+        "queries, radius 0, hex centres outside the grid (5%), cell lists with arbitrary integers (20% of the lists), get_neighborhood_mask on hex "
+        "classes (TypeError), half of the MultiGrid scenarios with 2-4 agents stacked on one cell that is then queried with both include_center values; (c) NetworkGrid on random simple graphs with 1..8 nodes, radii 0..n+1, 4% of the queries on a node that is not in the graph. "
         "non-trivial = at least 4 successful neighbourhood queries of which one has radius >= 2")
 
 
@@ -51,12 +57,12 @@ def generate(rng, tier, count):
 def builtin_corpus():
     # core gives this hook no tier argument: read it from the command line
     if L.tier_from_argv() == "thorough":
-        return L.exhaustive_c09(6, (1, 2, 3, 4, 7), (1, 2, 3, 5))
-    return L.exhaustive_c09(4, (1, 2, 3, 7), (1, 2, 3, 5))
+        return L.exhaustive_c09(6, (1, 2, 3, 4, 7), (1, 2, 3, 5)) + L.exhaustive_c09_net(5)
+    return L.exhaustive_c09(4, (1, 2, 3, 7), (1, 2, 3, 5)) + L.exhaustive_c09_net(4)
 
 
 run_impl = L.run_impl
-oracle = L.oracle_c09
+oracle = L.guarded(L.oracle_c09)
 gen_tables = L.gen_tables
 EXHAUSTIVE = {"quick": False, "thorough": False}
 
@@ -73,6 +79,8 @@ def tags(sc, obs):
     if w[1] == "net":
         yield "kind:network"
     else:
+        if sc.meta.get("oq"):
+            yield "stream:outside-quantifier(odd-width hex torus, tie only)"
         yield "kind:" + w[2]
         yield "torus:" + w[5]
         W, H = int(w[3]), int(w[4])
@@ -85,6 +93,11 @@ def tags(sc, obs):
         yield "op:" + k
         if o.startswith("err"):
             yield f"reject:{k}:{o.split()[1]}"
+        if k in Q and w[1] != "net":
+            if not (0 <= int(t[1]) < W and 0 <= int(t[2]) < H):
+                yield "branch:centre-outside-grid"
+            if int(t[-1]) == 0:
+                yield "branch:radius-0"
         if k in Q:
             key = " ".join(t[1:])
             if key in seen:
